@@ -982,7 +982,15 @@ impl Run {
         } else if !self.args.no_evidence && self.args.only.is_none() {
             let dir = format!("{}/evidence", verif_dir());
             let _ = std::fs::create_dir_all(&dir);
-            let path = format!("{dir}/{}.json", self.id);
+            // `VERIF_EVIDENCE_PART=<name>`: this binary covers only part of the property; write
+            // `evidence/parts/<id>.<name>.json`, merged by `./check`.
+            let path = match std::env::var("VERIF_EVIDENCE_PART") {
+                Ok(part) if !part.is_empty() => {
+                    let _ = std::fs::create_dir_all(format!("{dir}/parts"));
+                    format!("{dir}/parts/{}.{part}.json", self.id)
+                }
+                _ => format!("{dir}/{}.json", self.id),
+            };
             if let Err(e) = std::fs::write(&path, serde_json::to_string_pretty(&ev).unwrap()) {
                 eprintln!("cannot write {path}: {e}");
                 std::process::exit(2);
